@@ -65,6 +65,8 @@ func runC05(c *Ctx) {
 	// saved result exactly: a counter left one too low closes the gate in front of the exact re-count and the
 	// third occurrence goes unreported (rule of C08, re-decided here)
 	r.Rule("R05-takeback", "PopMove is the exact inverse of PushMove on everything the draw bookkeeping reads: per-hash repetition counters, half-move clock, saved result (rule of C08)", 18)
+	r.Rule("R05-counters", "the clock the fifty-move rule counts on from is bounded where a FEN is accepted, so that counting on cannot wrap it negative (rule of C19)", 1)
+	c.guard("R05-counters", func() { r.WithAlias("R19-counters", "R05-counters", func() { c19Counters(c, "R19-counters", 2) }) })
 	c.guard("R05-takeback", func() { r.WithAlias("R08-inverse", "R05-takeback", func() { c08Inverse(c, g) }) })
 }
 
